@@ -1182,6 +1182,15 @@ class EventBus:
         else:
             # otherwise, execute handlers serially, wait until each one completes before moving on to the next
             for handler_id, handler in applicable_handlers.items():
+                if self.event_queue is not None and self.event_queue._is_shutdown:  # pyright: ignore[reportPrivateUsage]
+                    # stop() was called while this event was being processed (e.g. inline, by a handler of another bus that
+                    # awaits it): no further handler of this bus may start. Cancel the result so the event can still complete
+                    event.event_result_update(
+                        handler=handler,
+                        eventbus=self,
+                        error=asyncio.CancelledError(f'Cancelled pending handler: {self} was stopped before it could start'),
+                    )
+                    continue
                 try:
                     await self.execute_handler(event, handler, timeout=timeout)
                 except Exception as e:
